@@ -2753,6 +2753,10 @@ PIP_Solution_Node::solve(const PIP_Problem& pip,
     //  - it has at least one positive variable coefficient;
     //  - constraint t_i(z) > 0 is not compatible with the context;
     // then this parameter row can be considered negative.
+    // The rows considered negative this way may actually be zero for some
+    // parameter values: they are valid pivot rows, but their sign has to be
+    // computed anew after pivoting.
+    std::vector<dimension_type> weakly_negative_rows;
     if (first_negative == not_a_dim && first_mixed != not_a_dim) {
       WEIGHT_BEGIN();
       for (dimension_type i = first_mixed; i < num_rows; ++i) {
@@ -2793,6 +2797,7 @@ PIP_Solution_Node::solve(const PIP_Problem& pip,
         else {
           // Sign becomes negative (i.e., no longer mixed).
           sign[i] = NEGATIVE;
+          weakly_negative_rows.push_back(i);
           if (first_negative == not_a_dim) {
             first_negative = i;
           }
@@ -2848,6 +2853,11 @@ PIP_Solution_Node::solve(const PIP_Problem& pip,
 #ifdef VERY_NOISY_PIP
       std::cerr << "Pivot (pi, pj) = (" << pi << ", " << pj << ")\n";
 #endif // #ifdef VERY_NOISY_PIP
+
+      // The rows that were only considered negative go back to mixed.
+      for (dimension_type k = weakly_negative_rows.size(); k-- > 0; ) {
+        sign[weakly_negative_rows[k]] = MIXED;
+      }
 
       // Normalize the tableau before pivoting.
       tableau.normalize();
